@@ -368,6 +368,8 @@ def run_spec(P: C.Part, s: Dict[str, Any], backends: List[str], cuda: Optional[C
         if cross:
             variants.append(("ch2", x1, x2 + T2))
             variants.append(("both", x1 + T1, x2 + T2))
+    if s.get("cuda_light") and len(variants) > 1:
+        variants = variants[-1:]                  # CUDA-simulator cases: only the "both channels" variant (the simulator is slow)
     # degree order+1, centred on the record, relative to the noise level
     Tn = poly_trend(N, s["Tnext"], centred=True)
     x1n = x1 + Tn
@@ -404,7 +406,7 @@ def run_spec(P: C.Part, s: Dict[str, Any], backends: List[str], cuda: Optional[C
                 if vn == ("both" if cross else "ch1"):
                     results[be + "+trend"] = (r_v, t_v)
             # degree order+1 changes the estimate (order −1: a constant changes it)
-            if be != "cuda" or s["mode"] == "single":
+            if be != "cuda":
                 r_n, _ = run_impl(s, x1n, x2, be, cuda)
                 t_n = Tols(r_n, x1n, x2, o, fs, wc)
                 if same_plan(r_base, r_n):
@@ -602,10 +604,28 @@ def oracle(ctx, intensive: bool = False, hints: List[Dict[str, Any]] = ()) -> C.
         return len(P.violations) >= 5
 
     off = int(ctx.rng.integers(0, 10 ** 6)) * 144
+    # 0. CUDA through the simulator (analyzer level), small cases covering the six kernels (orders 0,1,2 x auto/cross): invariance on the
+    #    CUDA backend and agreement with numba
+    if cuda is not None:
+        n_cu = ctx.scale(6, 18) * (2 if intensive else 1)
+        for i in range(n_cu):
+            if used() > 0.3 or enough():
+                if used() > 0.3:
+                    P.notes.append(f"time budget reached after {i} of {n_cu} CUDA-simulator cases")
+                break
+            s = make_spec("plan" if i % 4 else "single", off + i, cs())      # idx rotation: cross = i%2, order = (i//2)%3
+            if s["mode"] == "plan":
+                s["N"] = 260 + 20 * (i % 4)
+                s["o"].update({"Jdes": 5, "Kdes": 2, "olap": 0.5, "Lmin": 16})
+            s["layout"] = "2xN"
+            s["cuda_light"] = True
+            run_spec(P, s, ["numba", "cuda"], cuda, stats)
+    else:
+        P.notes.append("CUDA backend not exercised (simulator worker unavailable)")
     # 1. every L in 1..8 (and some larger) through compute_single_bin, orders 0..2, auto and cross
     n_single = ctx.scale(48, 480) * mult
     for i in range(n_single):
-        if used() > 0.25 or enough():
+        if used() > 0.5 or enough():
             break
         s = make_spec("single", off + i, cs())
         run_spec(P, s, BACKENDS, None, stats)
@@ -614,8 +634,8 @@ def oracle(ctx, intensive: bool = False, hints: List[Dict[str, Any]] = ()) -> C.
     # 2. full plans (Lmin = 1 plans reach short segments), schedulers x windows x orders x auto/cross
     n_plan = ctx.scale(24, 288) * mult
     for i in range(n_plan):
-        if used() > 0.65 or enough():
-            if used() > 0.65:
+        if used() > 0.8 or enough():
+            if used() > 0.8:
                 P.notes.append(f"time budget reached in the plan sweep after {i} of {n_plan} cases")
             break
         s = make_spec("plan", off + i, cs())
@@ -625,7 +645,7 @@ def oracle(ctx, intensive: bool = False, hints: List[Dict[str, Any]] = ()) -> C.
     # 3. order −1: no detrending at all
     n_neg = ctx.scale(8, 64) * mult
     for i in range(n_neg):
-        if used() > 0.8 or enough():
+        if used() > 0.9 or enough():
             break
         s = make_spec("neg1" if i % 4 else "single", off + i, cs())
         s["o"]["order"] = -1
@@ -634,27 +654,12 @@ def oracle(ctx, intensive: bool = False, hints: List[Dict[str, Any]] = ()) -> C.
         run_spec(P, s, BACKENDS, None, stats)
     # 4. state: repeated compute on one analyzer, record untouched
     for i in range(ctx.scale(3, 12)):
-        if used() > 0.85 or enough():
+        if used() > 0.95 or enough():
             break
         check_repeat(P, make_spec("plan", off + 2 * i + 1, cs()), stats)
     # 5. edge stream
-    if not enough() and used() < 0.9:
+    if not enough() and used() < 1.0:
         edge_stream(P, stats)
-    # 6. CUDA through the simulator (analyzer level), small cases: invariance on the CUDA backend and agreement with numba
-    if cuda is not None and not enough():
-        n_cu = ctx.scale(3, 12) * (2 if intensive else 1)
-        for i in range(n_cu):
-            if ctx.time_left() < 25 or used() > 1.3:
-                P.notes.append("time budget reached before all CUDA-simulator cases")
-                break
-            s = make_spec("plan" if i % 3 else "single", off + 1 + 5 * i, cs())
-            if s["mode"] == "plan":
-                s["N"] = 260 + 20 * (i % 4)
-                s["o"].update({"Jdes": 5, "Kdes": 2, "olap": 0.5, "Lmin": 16})
-            s["layout"] = "2xN"
-            run_spec(P, s, ["numba", "cuda"], cuda, stats)
-    elif cuda is None:
-        P.notes.append("CUDA backend not exercised (simulator worker unavailable)")
     if cuda:
         cuda.close()
     P.notes.append("worst observed: " + ", ".join(f"{k}={v:.3g}" for k, v in sorted(stats.items())))
